@@ -33,86 +33,144 @@ Variables (inp : input) (lenient : bool) (ms : N).
 Variable lossless : N -> N -> bytes -> res unit.
 Variable allow : bool.
 Hypothesis Hll : forall w h b, rgood (lossless w h b).
+(* [noio = true]: additionally no I/O error can arise - seek-style skips stay below the seek bound (a chunk ends at most
+   2^32 bytes after a header that lies inside the input) and the validator reports none; then failures are parse errors *)
+Variable noio : bool.
+Hypothesis Hnoio : noio = true -> (lenient = true -> ilen inp + 2 ^ 32 <= ms) /\ (forall w h b e, lossless w h b <> EIo e).
 Notation exec' := (exec inp lenient ms).
 Notation padreq' := (padreq inp).
 Notation linv' := (linv inp).
 Notation hdr_at' := (hdr_at inp).
 
-(* the production failed, or it left a level (same enclosing frames) that satisfies the invariant and P *)
+Definition bad {A} (x : res A * N) : Prop := if noio then perr_at x else fails x.
+Lemma bad_perr {A} (x : res A * N) : perr_at x -> bad x.
+Proof. unfold bad. destruct noio; [auto | apply perr_fails]. Qed.
+Lemma bad_ebind {A B} (x : res A * N) (f : A -> N -> res B * N) : bad x -> bad (ebind x f).
+Proof. unfold bad. destruct noio; [apply ebind_perr | apply ebind_fails]. Qed.
+Lemma bad_fails {A} (x : res A * N) : bad x -> fails x.
+Proof. unfold bad. destruct noio; [apply perr_fails | auto]. Qed.
+
+(* the body of the current chunk ends at most 2^32 bytes beyond the input *)
+Definition einv (a : astate) : Prop := match a with AIn _ e => e <= ilen inp + 2 ^ 32 | _ => True end.
+Definition rgood2 {A} (r : res A) : Prop := rgood r /\ (noio = true -> forall e, r <> EIo e).
+Lemma Hll2 w h b : rgood2 (lossless w h b).
+Proof. split; [apply Hll|]. intros Hn. apply (proj2 (Hnoio Hn)). Qed.
+
+(* the production failed, or it left a level (same enclosing frames) that satisfies the invariants and P *)
 Definition good (P : astate -> N -> Prop) (fr : list frame) (x : res lv * N) : Prop :=
-  fails x \/ exists a' p', x = (Ok (L a' fr p'), p') /\ linv' a' fr p' /\ P a' p'.
+  bad x \/ exists a' p', x = (Ok (L a' fr p'), p') /\ linv' a' fr p' /\ einv a' /\ P a' p'.
 Definition anyst : astate -> N -> Prop := fun _ _ => True.
 Definition nopeek : astate -> N -> Prop := fun a _ => forall h, a <> APeek h.
 Definition isidle : astate -> N -> Prop := fun a _ => exists n, a = AIdle n.
 
-Lemma good_fails P fr x : fails x -> good P fr x.
-Proof. now left. Qed.
 Lemma good_perr P fr x : perr_at x -> good P fr x.
-Proof. intros H. left. now apply perr_fails. Qed.
+Proof. intros H. left. now apply bad_perr. Qed.
 Lemma good_weaken (P Q : astate -> N -> Prop) fr x : (forall a p, P a p -> Q a p) -> good P fr x -> good Q fr x.
-Proof. intros H [F | (a' & p' & E & Hl & HP)]; [now left | right; exists a', p'; auto]. Qed.
+Proof. intros H [F | (a' & p' & E & Hl & He & HP)]; [now left | right; exists a', p'; auto]. Qed.
 
 (* sequencing: a good first part followed by a continuation that is good from every level the first part can leave *)
 Lemma good_bind (P Q : astate -> N -> Prop) fr fr2 (pr : prog lv) (f : lv -> prog lv) p :
   good P fr (exec' pr p) ->
-  (forall a' p', linv' a' fr p' -> P a' p' -> p <= p' -> good Q fr2 (exec' (f (L a' fr p')) p')) ->
+  (forall a' p', linv' a' fr p' -> einv a' -> P a' p' -> p <= p' -> good Q fr2 (exec' (f (L a' fr p')) p')) ->
   good Q fr2 (exec' (pbind pr f) p).
 Proof.
-  intros [F | (a' & p' & E & Hl & HP)] Hf; rewrite exec_bind.
-  - left. now apply ebind_fails.
+  intros [F | (a' & p' & E & Hl & He & HP)] Hf; rewrite exec_bind.
+  - left. now apply bad_ebind.
   - rewrite E. cbn [ebind]. apply Hf; auto. eapply exec_mono; exact E.
 Qed.
 
+Lemma bad_ret_parse {A} e q : bad (exec' (@Ret A (EParse e)) q).
+Proof. apply bad_perr. eexists _, _. apply exec_ret. Qed.
 Lemma good_ret_parse P fr e q : good P fr (exec' (Ret (EParse e)) q).
-Proof. left. left. eexists _, _. apply exec_ret. Qed.
+Proof. left. apply bad_ret_parse. Qed.
 
-Lemma good_ret_ok (P : astate -> N -> Prop) fr a p : linv' a fr p -> P a p -> good P fr (exec' (Ret (Ok (L a fr p))) p).
-Proof. intros Hl HP. right. exists a, p. rewrite exec_ret. auto. Qed.
+Lemma good_ret_ok (P : astate -> N -> Prop) fr a p : linv' a fr p -> einv a -> P a p -> good P fr (exec' (Ret (Ok (L a fr p))) p).
+Proof. intros Hl He HP. right. exists a, p. rewrite exec_ret. auto. Qed.
+
+(* a chunk whose header lies inside the input ends at most 2^32 bytes beyond it *)
+Lemma einv_in_hdr o : o + 8 <= ilen inp -> einv (in_hdr inp o).
+Proof.
+  intros H. unfold in_hdr. cbn [einv]. rewrite hdr_len. pose proof (le_lt inp (o + 4) 4).
+  change (256 ^ 4) with (2 ^ 32) in *. lia.
+Qed.
+Lemma einv_nst a p : einv a -> einv (nst a p).
+Proof. destruct a as [n|h|h e]; cbn [nst]; auto. destruct (e <=? p); [intros _; exact I | auto]. Qed.
+
+(* skipping to the end of the current body: an I/O error arises only when the seek bound is exceeded *)
+Lemma skip_data_body_bad h e fr p : fits fr p -> p < e -> e <= ilen inp + 2 ^ 32 ->
+  fails (exec' (skip_data (L (AIn h e) fr p)) p) -> bad (exec' (skip_data (L (AIn h e) fr p)) p).
+Proof.
+  intros Hf Hlt He. unfold bad. destruct noio eqn:En; [|auto]. intros Hfail.
+  destruct (Hnoio eq_refl) as [Hms _].
+  unfold skip_data. rewrite read_padding_settled by (cbn [settled]; lia). cbn [pbind].
+  rewrite fst_L, snd_L, conc_settled_In by lia. rewrite exec_bind.
+  assert (K : perr_at (exec' (src_skip (e - p) TRUNC (mkstack fr p)) p)
+              \/ exists st, exec' (src_skip (e - p) TRUNC (mkstack fr p)) p = (Ok st, p + (e - p))).
+  { unfold src_skip. rewrite exec_bind, exec_lift, avail_mkstack. cbn [ebind].
+    assert (S : perr_at (exec' (do_skip (e - p) TRUNC) p) \/ exec' (do_skip (e - p) TRUNC) p = (Ok tt, p + (e - p))).
+    { unfold exec, do_skip. cbn [run rstep cursor cursor_step]. destruct lenient eqn:El.
+      - specialize (Hms eq_refl). replace (p + (e - p) <=? ms) with true by lia. right. reflexivity.
+      - destruct (p + (e - p) <=? ilen inp); [right; reflexivity | left; eexists _, _; reflexivity]. }
+    destruct (lim fr p) as [k|].
+    - destruct (e - p <=? k).
+      + rewrite exec_bind. destruct S as [S | S]; [left; now apply ebind_perr|]. rewrite S. cbn [ebind]. right.
+        eexists. apply exec_ret.
+      + left. unfold io_err, TRUNC. eexists _, _. apply exec_ret.
+    - rewrite exec_bind. destruct S as [S | S]; [left; now apply ebind_perr|]. rewrite S. cbn [ebind]. right.
+      eexists. apply exec_ret. }
+  destruct K as [K | (st & K)]; [now apply ebind_perr|].
+  (* the skip succeeded: then the whole operation succeeded, contradicting the premise; still a goal about perr *)
+  rewrite K. cbn [ebind]. exfalso. revert Hfail.
+  unfold skip_data. rewrite read_padding_settled by (cbn [settled]; lia). cbn [pbind].
+  rewrite fst_L, snd_L, conc_settled_In by lia. rewrite exec_bind, K. cbn [ebind]. rewrite exec_ret.
+  intros [(e0 & q & X) | (e0 & q & X)]; discriminate X.
+Qed.
 
 (* ------------------------------------------------------------------ reader operations *)
-Lemma g_skip_data a fr p : linv' a fr p -> (forall h, a <> APeek h) -> good nopeek fr (exec' (skip_data (L a fr p)) p).
+Lemma g_skip_data a fr p : linv' a fr p -> einv a -> (forall h, a <> APeek h) -> good nopeek fr (exec' (skip_data (L a fr p)) p).
 Proof.
-  intros Hl Hnp. pose proof Hl as [Hf Ha].
+  intros Hl He Hnp. pose proof Hl as [Hf Ha].
   assert (Hb : atb a p \/ exists h e, a = AIn h e /\ p < e).
   { destruct a as [n|h|h e]; cbn [atb]; auto. destruct (e <=? p) eqn:E; [left; lia | right; exists h, e; split; auto; lia]. }
   destruct Hb as [Hb | (h & e & -> & Hlt)].
   - destruct (skip_data_boundary inp lenient ms a fr p Hl Hb Hnp) as [(Hp & E) | (_ & Hx)]; [|now apply good_perr].
     rewrite E. destruct (linv_settle inp _ fr p Hl Hp) as (Hl' & _ & _).
-    right. exists (nst a p), (npos a p). split; [reflexivity|]. split; [exact Hl'|].
+    right. exists (nst a p), (npos a p). split; [reflexivity|]. split; [exact Hl'|]. split; [now apply einv_nst|].
     intros h0. destruct a as [n|h|h e]; cbn [nst].
     + discriminate.
     + now destruct (Hnp h).
     + destruct (e <=? p); discriminate.
-  - destruct (skip_data_body inp lenient ms h e fr p Hf Hlt) as [(H1 & H2 & E) | (_ & Hx)]; [|now apply good_fails].
+  - destruct (skip_data_body inp lenient ms h e fr p Hf Hlt) as [(H1 & H2 & E) | (_ & Hx)].
+    2:{ left. apply skip_data_body_bad; auto. }
     rewrite E. right. exists (AIn h e), e. split; [reflexivity|]. split; [split; [exact H1 | cbn [ainv]; lia]|].
-    intros h0. discriminate.
+    split; [exact He|]. intros h0. discriminate.
 Qed.
 
 Definition inbody : astate -> N -> Prop := fun a _ => exists h e, a = AIn h e.
 
 (* read_any_header / read_header: fail, or leave the level inside the body of the chunk whose header was read *)
 Lemma g_read_any_header a fr fr2 p (k : chdr * lv -> prog lv) (Q : astate -> N -> Prop) : linv' a fr p ->
-  (forall o, p <= o + 8 -> o + 8 <= ilen inp -> linv' (in_hdr inp o) fr (o + 8) ->
+  (forall o, p <= o + 8 -> o + 8 <= ilen inp -> linv' (in_hdr inp o) fr (o + 8) -> einv (in_hdr inp o) ->
              good Q fr2 (exec' (k (hdr_at' o, L (in_hdr inp o) fr (o + 8))) (o + 8))) ->
   good Q fr2 (exec' (pbind (read_any_header (L a fr p)) k) p).
 Proof.
   intros Hl Hk. rewrite exec_bind.
   destruct (read_any_header_spec inp lenient ms a fr p Hl) as [(Hp & Hb & Hh & E) | (_ & Hx)].
   - pose proof (exec_mono inp lenient ms _ _ _ _ E) as Hm. rewrite E. cbn [ebind].
-    apply Hk; [exact Hm | apply Hh | apply linv_in_hdr; apply Hh].
-  - left. apply ebind_fails. now apply perr_fails.
+    apply Hk; [exact Hm | apply Hh | apply linv_in_hdr; apply Hh | apply einv_in_hdr; apply Hh].
+  - left. apply bad_ebind. now apply bad_perr.
 Qed.
 
 Lemma g_read_header name a fr fr2 p (k : chdr * lv -> prog lv) (Q : astate -> N -> Prop) : linv' a fr p ->
-  (forall o, p <= o + 8 -> o + 8 <= ilen inp -> linv' (in_hdr inp o) fr (o + 8) ->
+  (forall o, p <= o + 8 -> o + 8 <= ilen inp -> linv' (in_hdr inp o) fr (o + 8) -> einv (in_hdr inp o) ->
              good Q fr2 (exec' (k (hdr_at' o, L (in_hdr inp o) fr (o + 8))) (o + 8))) ->
   good Q fr2 (exec' (pbind (read_header name (L a fr p)) k) p).
 Proof.
   intros Hl Hk. rewrite exec_bind.
   destruct (read_header_spec inp lenient ms name a fr p Hl) as [(Hp & Hb & Hh & Hn & E) | (_ & Hx)].
   - pose proof (exec_mono inp lenient ms _ _ _ _ E) as Hm. rewrite E. cbn [ebind].
-    apply Hk; [exact Hm | apply Hh | apply linv_in_hdr; apply Hh].
-  - left. apply ebind_fails. now apply perr_fails.
+    apply Hk; [exact Hm | apply Hh | apply linv_in_hdr; apply Hh | apply einv_in_hdr; apply Hh].
+  - left. apply bad_ebind. now apply bad_perr.
 Qed.
 
 Lemma g_read_data n h e fr fr2 p (k : bytes * lv -> prog lv) (Q : astate -> N -> Prop) : 0 < n -> linv' (AIn h e) fr p ->
@@ -122,7 +180,7 @@ Proof.
   intros Hn Hl Hk. rewrite exec_bind.
   destruct (read_data_spec inp lenient ms n h e fr p Hn Hl) as [(H1 & H2 & H3 & E) | (_ & Hx)].
   - rewrite E. cbn [ebind]. apply Hk. split; [exact H2 | cbn [ainv]; exact H1].
-  - left. apply ebind_fails. now apply perr_fails.
+  - left. apply bad_ebind. now apply bad_perr.
 Qed.
 
 Lemma g_read_body h e fr fr2 p (k : bytes * lv -> prog lv) (Q : astate -> N -> Prop) : linv' (AIn h e) fr p ->
@@ -134,69 +192,85 @@ Proof.
   pose proof (upto_le inp fr p (e - p)). lia.
 Qed.
 
-Lemma g_lift {A} (r : res A) (k : A -> prog lv) (Q : astate -> N -> Prop) (fr : list frame) p : rgood r ->
+Lemma bad_of_rgood2 {A B} (r : res A) q : rgood2 r -> (forall a, r <> Ok a) -> @bad B (match r with Ok _ => (OutOfFuel, q) | EParse e => (EParse e, q) | EIo e => (EIo e, q) | Panic n => (Panic n, q) | OutOfFuel => (OutOfFuel, q) end).
+Proof.
+  intros [Hr Hio] Hn. destruct r as [a|e|e|n|]; cbn [rgood] in Hr; try contradiction.
+  - now destruct (Hn a).
+  - apply bad_perr. eexists _, _. reflexivity.
+  - unfold bad. destruct noio eqn:En; [now destruct (Hio eq_refl e) | right; eexists _, _; reflexivity].
+Qed.
+
+Lemma g_lift {A} (r : res A) (k : A -> prog lv) (Q : astate -> N -> Prop) (fr : list frame) p : rgood2 r ->
   (forall a, r = Ok a -> good Q fr (exec' (k a) p)) -> good Q fr (exec' (pbind (lift r) k) p).
 Proof.
-  intros Hr Hk. rewrite exec_bind, exec_lift. destruct r as [a|e|e|n|]; cbn [ebind rgood] in *; try contradiction.
+  intros Hr Hk. rewrite exec_bind, exec_lift. destruct r as [a|e|e|n|] eqn:Er; cbn [ebind].
   - now apply Hk.
-  - left. left. eexists _, _. reflexivity.
-  - left. right. eexists _, _. reflexivity.
+  - left. apply bad_perr. eexists _, _. reflexivity.
+  - left. pose proof (bad_of_rgood2 (B := lv) (EIo e) p Hr) as X. apply X. discriminate.
+  - destruct Hr as [Hr _]. contradiction.
+  - destruct Hr as [Hr _]. contradiction.
 Qed.
 
 Lemma length_iread'' n pos : length (iread inp pos n) = n.
 Proof. apply length_iread'. Qed.
 
-Lemma rgood_parse_vp8l p : rgood (parse_vp8l (iread inp p 5)).
+Lemma rgood2_ok {A} (a : A) : rgood2 (Ok a).
+Proof. split; [exact I | intros _ e; discriminate]. Qed.
+Lemma rgood2_parse {A} e : rgood2 (@EParse A e).
+Proof. split; [exact I | intros _ e'; discriminate]. Qed.
+Lemma rgood_parse_vp8l p : rgood2 (parse_vp8l (iread inp p 5)).
 Proof.
   unfold parse_vp8l. rewrite length_iread''. change (Nat.ltb 5 5) with false. cbv iota.
-  destruct (negb _); [exact I|]. destruct (negb _); exact I.
+  destruct (negb _); [apply rgood2_parse|]. destruct (negb _); [apply rgood2_parse | apply rgood2_ok].
 Qed.
 
 (* ------------------------------------------------------------------ image data *)
-Lemma g_do_vp8l dims h e fr p : linv' (AIn h e) fr p -> good nopeek fr (exec' (do_vp8l lossless dims (L (AIn h e) fr p)) p).
+Lemma g_do_vp8l dims h e fr p : linv' (AIn h e) fr p -> einv (AIn h e) ->
+  good nopeek fr (exec' (do_vp8l lossless dims (L (AIn h e) fr p)) p).
 Proof.
-  intros Hl. unfold do_vp8l. apply g_read_data; [lia | exact Hl|]. intros Hl1. change (N.to_nat 5) with 5%nat.
+  intros Hl He. unfold do_vp8l. apply g_read_data; [lia | exact Hl|]. intros Hl1. change (N.to_nat 5) with 5%nat.
   apply g_lift; [apply rgood_parse_vp8l|]. intros v _.
   assert (K : good nopeek fr (exec' ('(body, l2) <~ read_body (L (AIn h e) fr (p + 5)) ;;
                                      _ <~ lift (lossless (l_w v) (l_h v) body) ;; skip_data l2) (p + 5))).
   { apply g_read_body; [exact Hl1|]. intros u b Hl2.
-    apply g_lift; [apply Hll|]. intros _ _. apply g_skip_data; [exact Hl2 | discriminate]. }
+    apply g_lift; [apply Hll2|]. intros _ _. apply g_skip_data; [exact Hl2 | exact He | discriminate]. }
   destruct dims as [[w hh]|]; [destruct ((l_w v =? w) && (l_h v =? hh))|]; cbn [pbind];
     first [exact K | apply good_ret_parse].
 Qed.
 
-Lemma g_do_alph w hh h e fr p : linv' (AIn h e) fr p -> good nopeek fr (exec' (do_alph lossless w hh (L (AIn h e) fr p)) p).
+Lemma g_do_alph w hh h e fr p : linv' (AIn h e) fr p -> einv (AIn h e) ->
+  good nopeek fr (exec' (do_alph lossless w hh (L (AIn h e) fr p)) p).
 Proof.
-  intros Hl. unfold do_alph. apply g_read_data; [lia | exact Hl|]. intros Hl1. change (N.to_nat 1) with 1%nat.
+  intros Hl He. unfold do_alph. apply g_read_data; [lia | exact Hl|]. intros Hl1. change (N.to_nat 1) with 1%nat.
   apply g_lift.
-  { rewrite parse_alph_spec. destruct (_ =? 0); exact I. }
+  { rewrite parse_alph_spec. destruct (_ =? 0); [apply rgood2_ok | apply rgood2_parse]. }
   intros f _. apply (good_bind (fun a _ => a = AIn h e) nopeek fr fr).
   - destruct (has f 1).
-    + apply g_read_body; [exact Hl1|]. intros u b Hl2. apply g_lift; [apply Hll|]. intros _ _.
-      apply good_ret_ok; [exact Hl2 | reflexivity].
-    + apply good_ret_ok; [exact Hl1 | reflexivity].
-  - intros a' p' Hl' -> _. apply g_skip_data; [exact Hl' | discriminate].
+    + apply g_read_body; [exact Hl1|]. intros u b Hl2. apply g_lift; [apply Hll2|]. intros _ _.
+      apply good_ret_ok; [exact Hl2 | exact He | reflexivity].
+    + apply good_ret_ok; [exact Hl1 | exact He | reflexivity].
+  - intros a' p' Hl' _ -> _. apply g_skip_data; [exact Hl' | exact He | discriminate].
 Qed.
 
 (* ------------------------------------------------------------------ productions whose result carries a value *)
 Definition goodX {X} (P : X -> astate -> N -> Prop) (fr : list frame) (x : res (X * lv) * N) : Prop :=
-  fails x \/ exists v a' p', x = (Ok (v, L a' fr p'), p') /\ linv' a' fr p' /\ P v a' p'.
+  bad x \/ exists v a' p', x = (Ok (v, L a' fr p'), p') /\ linv' a' fr p' /\ einv a' /\ P v a' p'.
 
 Lemma goodX_bind {X} (P : X -> astate -> N -> Prop) (Q : astate -> N -> Prop) fr fr2 (pr : prog (X * lv)) (f : X * lv -> prog lv) p :
   goodX P fr (exec' pr p) ->
-  (forall v a' p', linv' a' fr p' -> P v a' p' -> p <= p' -> good Q fr2 (exec' (f (v, L a' fr p')) p')) ->
+  (forall v a' p', linv' a' fr p' -> einv a' -> P v a' p' -> p <= p' -> good Q fr2 (exec' (f (v, L a' fr p')) p')) ->
   good Q fr2 (exec' (pbind pr f) p).
 Proof.
-  intros [F | (v & a' & p' & E & Hl & HP)] Hf; rewrite exec_bind.
-  - left. now apply ebind_fails.
+  intros [F | (v & a' & p' & E & Hl & He & HP)] Hf; rewrite exec_bind.
+  - left. now apply bad_ebind.
   - rewrite E. cbn [ebind]. apply Hf; auto. eapply exec_mono; exact E.
 Qed.
 
 Lemma goodX_of_good {X} (v : X) (P : astate -> N -> Prop) fr (pr : prog lv) p :
   good P fr (exec' pr p) -> goodX (fun _ a q => P a q) fr (exec' (l <~ pr ;; Ret (Ok (v, l))) p).
 Proof.
-  intros [F | (a' & p' & E & Hl & HP)]; rewrite exec_bind.
-  - left. now apply ebind_fails.
+  intros [F | (a' & p' & E & Hl & He & HP)]; rewrite exec_bind.
+  - left. now apply bad_ebind.
   - rewrite E. cbn [ebind]. right. exists v, a', p'. rewrite exec_ret. auto.
 Qed.
 
@@ -206,23 +280,24 @@ Proof.
 Qed.
 
 (* has_remaining in continuation form *)
-Lemma g_has_remaining a fr fr2 p (k : bool * lv -> prog lv) (Q : astate -> N -> Prop) : linv' a fr p ->
-  (linv' (nst a p) fr (npos a p) -> p <= npos a p ->
+Lemma g_has_remaining a fr fr2 p (k : bool * lv -> prog lv) (Q : astate -> N -> Prop) : linv' a fr p -> einv a ->
+  (linv' (nst a p) fr (npos a p) -> einv (nst a p) -> p <= npos a p ->
    forall b, (b = false -> exists n, nst a p = AIdle n) ->
    good Q fr2 (exec' (k (b, L (nst a p) fr (npos a p))) (npos a p))) ->
   good Q fr2 (exec' (pbind (has_remaining (L a fr p)) k) p).
 Proof.
-  intros Hl Hk. rewrite exec_bind.
+  intros Hl He Hk. rewrite exec_bind.
   destruct (has_remaining_spec inp lenient ms a fr p Hl) as [(Hp & E) | (_ & Hx)].
   - rewrite E. cbn [ebind]. destruct (linv_settle inp a fr p Hl Hp) as (Hl' & _ & Hle). apply Hk; auto.
-    intros Hb. destruct (nst a p) as [n| |]; [eexists; reflexivity | discriminate | discriminate].
-  - left. apply ebind_fails. now apply perr_fails.
+    + now apply einv_nst.
+    + intros Hb. destruct (nst a p) as [n| |]; [eexists; reflexivity | discriminate | discriminate].
+  - left. apply bad_ebind. now apply bad_perr.
 Qed.
 
 Lemma g_skip_named name a fr p : linv' a fr p -> good nopeek fr (exec' (skip_named name (L a fr p)) p).
 Proof.
-  intros Hl. unfold skip_named. apply g_read_header; [exact Hl|]. intros o _ _ Hl1.
-  apply g_skip_data; [exact Hl1 | discriminate].
+  intros Hl. unfold skip_named. apply g_read_header; [exact Hl|]. intros o _ _ Hl1 He1.
+  apply g_skip_data; [exact Hl1 | exact He1 | discriminate].
 Qed.
 
 (* ------------------------------------------------------------------ trailing chunks (file level and inside a frame) *)
@@ -241,47 +316,47 @@ Proof. unfold fuel_ok. intros H. assert ((ilen inp - q) / 8 <= ilen inp / 8) by 
 
 (* read_any_header with the offset of the header it reads made explicit *)
 Lemma g_read_any_header_at a fr fr2 p (k : chdr * lv -> prog lv) (Q : astate -> N -> Prop) : linv' a fr p ->
-  (loff a p + 8 <= ilen inp -> linv' (in_hdr inp (loff a p)) fr (loff a p + 8) ->
+  (loff a p + 8 <= ilen inp -> linv' (in_hdr inp (loff a p)) fr (loff a p + 8) -> einv (in_hdr inp (loff a p)) ->
    good Q fr2 (exec' (k (hdr_at' (loff a p), L (in_hdr inp (loff a p)) fr (loff a p + 8))) (loff a p + 8))) ->
   good Q fr2 (exec' (pbind (read_any_header (L a fr p)) k) p).
 Proof.
   intros Hl Hk. rewrite exec_bind.
   destruct (read_any_header_spec inp lenient ms a fr p Hl) as [(Hp & Hb & Hh & E) | (_ & Hx)].
-  - rewrite E. cbn [ebind]. apply Hk; [apply Hh | apply linv_in_hdr; apply Hh].
-  - left. apply ebind_fails. now apply perr_fails.
+  - rewrite E. cbn [ebind]. apply Hk; [apply Hh | apply linv_in_hdr; apply Hh | apply einv_in_hdr; apply Hh].
+  - left. apply bad_ebind. now apply bad_perr.
 Qed.
 
-Lemma g_file_tail : forall fuel a fr p, linv' a fr p -> fuel_ok fuel (loff a p) ->
+Lemma g_file_tail : forall fuel a fr p, linv' a fr p -> einv a -> fuel_ok fuel (loff a p) ->
   good isidle fr (exec' (file_tail allow fuel (L a fr p)) p).
 Proof.
-  induction fuel as [|fuel IH]; intros a fr p Hl Hfu; [unfold fuel_ok in Hfu; lia|].
-  cbn [file_tail]. apply g_has_remaining; [exact Hl|]. intros Hl1 Hle b Hb.
+  induction fuel as [|fuel IH]; intros a fr p Hl He Hfu; [unfold fuel_ok in Hfu; lia|].
+  cbn [file_tail]. apply g_has_remaining; [exact Hl | exact He|]. intros Hl1 He1 Hle b Hb.
   destruct b; cbn [negb].
-  2:{ destruct (Hb eq_refl) as (n & En). apply good_ret_ok; [exact Hl1 | exists n; exact En]. }
-  apply g_read_any_header_at; [exact Hl1|]. rewrite loff_nst. intros Ho Hl2.
+  2:{ destruct (Hb eq_refl) as (n & En). apply good_ret_ok; [exact Hl1 | exact He1 | exists n; exact En]. }
+  apply g_read_any_header_at; [exact Hl1|]. rewrite loff_nst. intros Ho Hl2 He2.
   destruct (known_after_image _ || teq _ ANMF); [apply good_ret_parse|].
   destruct (negb allow); [apply good_ret_parse|].
   apply (good_bind nopeek isidle fr fr).
-  - apply g_skip_data; [exact Hl2 | discriminate].
-  - intros a3 p3 Hl3 Hn3 Hle3. apply IH; [exact Hl3|].
+  - apply g_skip_data; [exact Hl2 | exact He2 | discriminate].
+  - intros a3 p3 Hl3 He3 Hn3 Hle3. apply IH; [exact Hl3 | exact He3|].
     apply (fuel_ok_step fuel (loff a p)); [exact Hfu | exact Ho |]. pose proof (nopeek_loff a3 p3 Hn3). lia.
 Qed.
 
-Lemma g_frame_tail fuel a fr p : linv' a fr p -> fuel_ok fuel (loff a p) ->
+Lemma g_frame_tail fuel a fr p : linv' a fr p -> einv a -> fuel_ok fuel (loff a p) ->
   good isidle fr (exec' (frame_tail allow fuel (L a fr p)) p).
 Proof.
-  intros Hl Hfu. rewrite (ContainerProofsSound.frame_tail_exec inp lenient ms allow). now apply g_file_tail.
+  intros Hl He Hfu. rewrite (ContainerProofsSound.frame_tail_exec inp lenient ms allow). now apply g_file_tail.
 Qed.
 
 Lemma g_read_header_at name a fr fr2 p (k : chdr * lv -> prog lv) (Q : astate -> N -> Prop) : linv' a fr p ->
-  (loff a p + 8 <= ilen inp -> linv' (in_hdr inp (loff a p)) fr (loff a p + 8) ->
+  (loff a p + 8 <= ilen inp -> linv' (in_hdr inp (loff a p)) fr (loff a p + 8) -> einv (in_hdr inp (loff a p)) ->
    good Q fr2 (exec' (k (hdr_at' (loff a p), L (in_hdr inp (loff a p)) fr (loff a p + 8))) (loff a p + 8))) ->
   good Q fr2 (exec' (pbind (read_header name (L a fr p)) k) p).
 Proof.
   intros Hl Hk. rewrite exec_bind.
   destruct (read_header_spec inp lenient ms name a fr p Hl) as [(Hp & Hb & Hh & Hn & E) | (_ & Hx)].
-  - rewrite E. cbn [ebind]. apply Hk; [apply Hh | apply linv_in_hdr; apply Hh].
-  - left. apply ebind_fails. now apply perr_fails.
+  - rewrite E. cbn [ebind]. apply Hk; [apply Hh | apply linv_in_hdr; apply Hh | apply einv_in_hdr; apply Hh].
+  - left. apply bad_ebind. now apply bad_perr.
 Qed.
 
 
@@ -292,47 +367,47 @@ Lemma g_alph_part w hh a fr p : linv' a fr p ->
 Proof.
   intros Hl. rewrite exec_bind.
   destruct (read_header_spec inp lenient ms ALPH a fr p Hl) as [(Hp & Hb & Hh & Hn & E) | (_ & Hx)];
-    [|left; apply ebind_fails; now apply perr_fails].
+    [|left; apply bad_ebind; now apply bad_perr].
   rewrite E. cbn [ebind].
-  pose proof (g_do_alph w hh _ _ fr _ (linv_in_hdr inp (loff a p) fr (proj1 Hh))) as G.
-  apply (goodX_of_good true) in G. destruct G as [F | (v & a' & p' & E' & Hl' & _)]; [now left|].
+  pose proof (g_do_alph w hh _ _ fr _ (linv_in_hdr inp (loff a p) fr (proj1 Hh)) (einv_in_hdr _ (proj2 Hh))) as G.
+  apply (goodX_of_good true) in G. destruct G as [F | (v & a' & p' & E' & Hl' & He' & _)]; [now left|].
   right. exists v, a', p'. auto.
 Qed.
 
 (* the image chunk: VP8 (skipped) or VP8L (validated; not after ALPH) *)
-Lemma g_image (alph : bool) dims h e fr p : linv' (AIn h e) fr p ->
+Lemma g_image (alph : bool) dims h e fr p : linv' (AIn h e) fr p -> einv (AIn h e) ->
   good nopeek fr (exec' (if teq (ch_name h) VP8 then skip_data (L (AIn h e) fr p)
                          else if teq (ch_name h) VP8L then
                            (if alph then Ret (EParse InvalidChunkLayout) else do_vp8l lossless dims (L (AIn h e) fr p))
                          else Ret (EParse InvalidChunkLayout)) p).
 Proof.
-  intros Hl. destruct (teq _ VP8); [apply g_skip_data; [exact Hl | discriminate]|].
+  intros Hl He. destruct (teq _ VP8); [apply g_skip_data; [exact Hl | exact He | discriminate]|].
   destruct (teq _ VP8L); [|apply good_ret_parse].
-  destruct alph; [apply good_ret_parse | apply g_do_vp8l; exact Hl].
+  destruct alph; [apply good_ret_parse | apply g_do_vp8l; [exact Hl | exact He]].
 Qed.
 
 (* ------------------------------------------------------------------ still image after VP8X *)
-Lemma g_sanitize_still x a fr p : linv' a fr p -> good nopeek fr (exec' (sanitize_still lossless x (L a fr p)) p).
+Lemma g_sanitize_still x a fr p : linv' a fr p -> einv a -> good nopeek fr (exec' (sanitize_still lossless x (L a fr p)) p).
 Proof.
-  intros Hl. unfold sanitize_still.
+  intros Hl He. unfold sanitize_still.
   apply (goodX_bind (fun (_ : bool) _ _ => True) nopeek fr fr).
   - destruct (has (x_flags x) F_ALPH); [now apply g_alph_part|].
     right. exists false, a, p. rewrite exec_ret. auto.
-  - intros alph a1 p1 Hl1 _ _.
-    apply g_has_remaining; [exact Hl1|]. intros Hl2 _ b _.
+  - intros alph a1 p1 Hl1 He1 _ _.
+    apply g_has_remaining; [exact Hl1 | exact He1|]. intros Hl2 He2 _ b _.
     destruct b; cbn [negb]; [|apply good_ret_parse].
-    apply g_read_any_header; [exact Hl2|]. intros o _ _ Hl3. apply g_image. exact Hl3.
+    apply g_read_any_header; [exact Hl2|]. intros o _ _ Hl3 He3. apply g_image; [exact Hl3 | exact He3].
 Qed.
 
 (* ------------------------------------------------------------------ one ANMF frame *)
-Lemma rgood_parse_anmf p : rgood (parse_anmf_dims (iread inp p 16)).
-Proof. rewrite parse_anmf_spec. destruct (_ =? 0); exact I. Qed.
+Lemma rgood_parse_anmf p : rgood2 (parse_anmf_dims (iread inp p 16)).
+Proof. rewrite parse_anmf_spec. destruct (_ =? 0); [apply rgood2_ok | apply rgood2_parse]. Qed.
 
 Lemma g_one_frame fuel x a fr p : linv' a fr p -> fuel_ok (S fuel) (loff a p) ->
   good nopeek fr (exec' (one_frame lossless allow fuel x (L a fr p)) p).
 Proof.
   intros Hl Hfu. unfold one_frame.
-  apply g_read_header_at; [exact Hl|]. intros Ho Hl1.
+  apply g_read_header_at; [exact Hl|]. intros Ho Hl1 He1.
   set (o := loff a p) in *. unfold in_hdr in *. set (h := hdr_at' o) in *. set (e := o + 8 + ch_len h) in *.
   apply g_read_data; [lia | exact Hl1|]. intros Hl2. change (N.to_nat 16) with 16%nat.
   apply g_lift; [apply rgood_parse_anmf|]. intros [fw fh] _. cbv zeta.
@@ -341,7 +416,7 @@ Proof.
   { split; [|exact I]. apply fits_cons. destruct Hl2 as [Hf2 Ha2]. cbn [ainv] in Ha2. cbn [snd]. split; assumption. }
   apply (goodX_bind (fun (_ : bool) _ _ => True) nopeek fr' fr).
   - (* the optional ALPH chunk of the frame *)
-    destruct (has (x_flags x) F_ALPH); [|right; exists false, (AIdle (ch_name h)), (o + 8 + 16); rewrite exec_ret; auto].
+    destruct (has (x_flags x) F_ALPH); [|right; exists false, (AIdle (ch_name h)), (o + 8 + 16); rewrite exec_ret; repeat split; auto; apply Hc].
     rewrite exec_bind.
     destruct (peek_header_spec inp lenient ms _ fr' _ Hc) as [(Hp & Hb & Hh & E) | [(Hp & Hb & Hm & n & E) | (_ & Hx)]];
       cbn [loff npos] in *.
@@ -349,21 +424,22 @@ Proof.
       assert (Hlp : linv' (APeek (hdr_at' (o + 8 + 16))) fr' (o + 8 + 16 + 8)).
       { destruct Hh as [Hh1 Hh2]. split; [exact Hh1|]. cbn [ainv]. split; [lia|]. split; [exact Hh2|]. f_equal. lia. }
       destruct (teq _ ALPH); [now apply g_alph_part|].
-      right. exists false, (APeek (hdr_at' (o + 8 + 16))), (o + 8 + 16 + 8). rewrite exec_ret. auto.
+      right. exists false, (APeek (hdr_at' (o + 8 + 16))), (o + 8 + 16 + 8). rewrite exec_ret.
+      split; [reflexivity|]. split; [exact Hlp|]. split; exact I.
     + rewrite E. cbn [ebind]. right. exists false, (AIdle n), (o + 8 + 16). rewrite exec_ret.
-      split; [reflexivity|]. split; [split; [apply Hc | exact I] | exact I].
-    + left. apply ebind_fails. now apply perr_fails.
+      split; [reflexivity|]. split; [split; [apply Hc | exact I] |]. split; exact I.
+    + left. apply bad_ebind. now apply bad_perr.
   - (* the image, the unknown chunks after it, and back to the parent level *)
-    intros alph a1 p1 Hl1' _ Hp1.
-    apply g_read_any_header; [exact Hl1'|]. intros o2 Ho2 _ Hl3.
+    intros alph a1 p1 Hl1' _ _ Hp1.
+    apply g_read_any_header; [exact Hl1'|]. intros o2 Ho2 _ Hl3 He3.
     apply (good_bind nopeek nopeek fr' fr).
-    + apply g_image. exact Hl3.
-    + intros a3 p3 Hl3' Hn3 Hle3.
+    + apply g_image; [exact Hl3 | exact He3].
+    + intros a3 p3 Hl3' He3' Hn3 Hle3.
       apply (good_bind isidle nopeek fr' fr).
-      * apply g_frame_tail; [exact Hl3'|].
+      * apply g_frame_tail; [exact Hl3' | exact He3'|].
         apply (fuel_ok_step fuel o); [exact Hfu | exact Ho |]. pose proof (nopeek_loff a3 p3 Hn3). lia.
-      * intros a4 p4 [Hf4 _] _ _. unfold fr'. rewrite parent_L. apply fits_cons in Hf4. cbn [snd] in Hf4.
-        apply good_ret_ok; [split; [apply Hf4 | cbn [ainv]; apply Hf4] | intros h0; discriminate].
+      * intros a4 p4 [Hf4 _] _ _ _. unfold fr'. rewrite parent_L. apply fits_cons in Hf4. cbn [snd] in Hf4.
+        apply good_ret_ok; [split; [apply Hf4 | cbn [ainv]; apply Hf4] | exact He1 | intros h0; discriminate].
 Qed.
 
 (* ------------------------------------------------------------------ the frame loop, the animation, the extended format *)
@@ -376,28 +452,28 @@ Proof.
   - rewrite E. cbn [ebind]. set (o := loff a p) in *.
     assert (Hlp : linv' (APeek (hdr_at' o)) fr (o + 8)).
     { destruct Hh as [Hh1 Hh2]. split; [exact Hh1|]. cbn [ainv]. split; [lia|]. split; [exact Hh2|]. f_equal. lia. }
-    destruct (teq _ ANMF); [|apply good_ret_ok; [exact Hlp | exact I]].
+    destruct (teq _ ANMF); [|apply good_ret_ok; [exact Hlp | exact I | exact I]].
     apply (good_bind nopeek anyst fr fr).
     + apply g_one_frame; [exact Hlp|]. cbn [loff]. replace (o + 8 - 8) with o by lia. exact Hfu.
-    + intros a2 p2 Hl2 Hn2 Hle2. apply IH; [exact Hl2|].
+    + intros a2 p2 Hl2 He2 Hn2 Hle2. apply IH; [exact Hl2|].
       apply (fuel_ok_step fuel o); [exact Hfu | apply Hh |]. pose proof (nopeek_loff a2 p2 Hn2). lia.
-  - rewrite E. cbn [ebind]. apply good_ret_ok; [|exact I].
+  - rewrite E. cbn [ebind]. apply good_ret_ok; [|exact I|exact I].
     destruct (linv_settle inp a fr p Hl Hp) as ([Hf' _] & _ & _).
     split; [|exact I]. assert (loff a p = npos a p \/ exists h0, a = APeek h0) as [-> | (h0 & ->)].
     { destruct a; cbn [loff]; eauto. }
     + exact Hf'.
     + cbn [loff npos] in *. eapply fits_le; [exact Hf' | lia].
-  - left. apply ebind_fails. now apply perr_fails.
+  - left. apply bad_ebind. now apply bad_perr.
 Qed.
 
 Lemma g_animated fuel x a fr p : linv' a fr p -> (N.to_nat (ilen inp / 8) < fuel)%nat ->
   good anyst fr (exec' (sanitize_animated lossless allow fuel x (L a fr p)) p).
 Proof.
   intros Hl Hfu. unfold sanitize_animated.
-  apply g_read_header; [exact Hl|]. intros o _ _ Hl1. unfold in_hdr in *.
+  apply g_read_header; [exact Hl|]. intros o _ _ Hl1 _. unfold in_hdr in *.
   apply g_read_data; [lia | exact Hl1|]. intros Hl2. change (N.to_nat 6) with 6%nat.
   apply g_lift.
-  { destruct (parse_anim_ok inp (o + 8)) as (v & ->). exact I. }
+  { destruct (parse_anim_ok inp (o + 8)) as (v & ->). apply rgood2_ok. }
   intros _ _. rewrite exec_bind.
   destruct (peek_header_spec inp lenient ms _ fr _ Hl2) as [(Hp & Hb & Hh & E) | [(Hp & Hb & Hm & n & E) | (_ & Hx)]].
   - rewrite E. cbn [ebind]. set (o' := loff _ _) in *.
@@ -405,65 +481,65 @@ Proof.
     apply g_frames; [|apply fuel_ok_any; exact Hfu].
     destruct Hh as [Hh1 Hh2]. split; [exact Hh1|]. cbn [ainv]. split; [lia|]. split; [exact Hh2|]. f_equal. lia.
   - rewrite E. cbn [ebind]. apply good_ret_parse.
-  - left. apply ebind_fails. now apply perr_fails.
+  - left. apply bad_ebind. now apply bad_perr.
 Qed.
 
-Lemma g_opt_named (flag : bool) name a fr p : linv' a fr p ->
+Lemma g_opt_named (flag : bool) name a fr p : linv' a fr p -> einv a ->
   good anyst fr (exec' (if flag then skip_named name (L a fr p) else Ret (Ok (L a fr p))) p).
 Proof.
-  intros Hl. destruct flag; [|apply good_ret_ok; [exact Hl | exact I]].
+  intros Hl He. destruct flag; [|apply good_ret_ok; [exact Hl | exact He | exact I]].
   eapply good_weaken; [|apply g_skip_named; exact Hl]. intros; exact I.
 Qed.
 
-Lemma g_extended fuel x a fr p : linv' a fr p -> (N.to_nat (ilen inp / 8) < fuel)%nat ->
+Lemma g_extended fuel x a fr p : linv' a fr p -> einv a -> (N.to_nat (ilen inp / 8) < fuel)%nat ->
   good anyst fr (exec' (sanitize_extended lossless allow fuel x (L a fr p)) p).
 Proof.
-  intros Hl Hfu. unfold sanitize_extended.
-  apply (good_bind anyst anyst fr fr); [apply g_opt_named; exact Hl|]. intros a1 p1 Hl1 _ _.
+  intros Hl He Hfu. unfold sanitize_extended.
+  apply (good_bind anyst anyst fr fr); [apply g_opt_named; assumption|]. intros a1 p1 Hl1 He1 _ _.
   apply (good_bind anyst anyst fr fr).
   { destruct (has (x_flags x) F_ANIM); [apply g_animated; assumption|].
-    eapply good_weaken; [|apply g_sanitize_still; exact Hl1]. intros; exact I. }
-  intros a2 p2 Hl2 _ _.
-  apply (good_bind anyst anyst fr fr); [apply g_opt_named; exact Hl2|]. intros a3 p3 Hl3 _ _.
-  apply g_opt_named. exact Hl3.
+    eapply good_weaken; [|apply g_sanitize_still; assumption]. intros; exact I. }
+  intros a2 p2 Hl2 He2 _ _.
+  apply (good_bind anyst anyst fr fr); [apply g_opt_named; assumption|]. intros a3 p3 Hl3 He3 _ _.
+  apply g_opt_named; assumption.
 Qed.
 
 (* ------------------------------------------------------------------ the whole file *)
 (* the same continuation lemmas for a continuation of any result type, with the goal closed under failure *)
 Section Gen.
-Context {B : Type} (G : res B * N -> Prop) (Gf : forall x, fails x -> G x).
+Context {B : Type} (G : res B * N -> Prop) (Gf : forall x, bad x -> G x).
 
 Lemma gg_bind (P : astate -> N -> Prop) fr (pr : prog lv) (f : lv -> prog B) p :
   good P fr (exec' pr p) ->
-  (forall a' p', linv' a' fr p' -> P a' p' -> p <= p' -> G (exec' (f (L a' fr p')) p')) ->
+  (forall a' p', linv' a' fr p' -> einv a' -> P a' p' -> p <= p' -> G (exec' (f (L a' fr p')) p')) ->
   G (exec' (pbind pr f) p).
 Proof.
-  intros [F | (a' & p' & E & Hl & HP)] Hf; rewrite exec_bind.
-  - apply Gf. now apply ebind_fails.
+  intros [F | (a' & p' & E & Hl & He & HP)] Hf; rewrite exec_bind.
+  - apply Gf. now apply bad_ebind.
   - rewrite E. cbn [ebind]. apply Hf; auto. eapply exec_mono; exact E.
 Qed.
 
 Lemma gg_read_header_at name a fr p (k : chdr * lv -> prog B) : linv' a fr p ->
-  (loff a p + 8 <= ilen inp -> linv' (in_hdr inp (loff a p)) fr (loff a p + 8) ->
+  (loff a p + 8 <= ilen inp -> linv' (in_hdr inp (loff a p)) fr (loff a p + 8) -> einv (in_hdr inp (loff a p)) ->
    G (exec' (k (hdr_at' (loff a p), L (in_hdr inp (loff a p)) fr (loff a p + 8))) (loff a p + 8))) ->
   G (exec' (pbind (read_header name (L a fr p)) k) p).
 Proof.
   intros Hl Hk. rewrite exec_bind.
   destruct (read_header_spec inp lenient ms name a fr p Hl) as [(Hp & Hb & Hh & Hn & E) | (_ & Hx)].
-  - rewrite E. cbn [ebind]. apply Hk; [apply Hh | apply linv_in_hdr; apply Hh].
-  - apply Gf. apply ebind_fails. now apply perr_fails.
+  - rewrite E. cbn [ebind]. apply Hk; [apply Hh | apply linv_in_hdr; apply Hh | apply einv_in_hdr; apply Hh].
+  - apply Gf. apply bad_ebind. now apply bad_perr.
 Qed.
 
 Lemma gg_read_any_header a fr p (k : chdr * lv -> prog B) : linv' a fr p ->
-  (forall o, p <= o + 8 -> o + 8 <= ilen inp -> linv' (in_hdr inp o) fr (o + 8) ->
+  (forall o, p <= o + 8 -> o + 8 <= ilen inp -> linv' (in_hdr inp o) fr (o + 8) -> einv (in_hdr inp o) ->
              G (exec' (k (hdr_at' o, L (in_hdr inp o) fr (o + 8))) (o + 8))) ->
   G (exec' (pbind (read_any_header (L a fr p)) k) p).
 Proof.
   intros Hl Hk. rewrite exec_bind.
   destruct (read_any_header_spec inp lenient ms a fr p Hl) as [(Hp & Hb & Hh & E) | (_ & Hx)].
   - pose proof (exec_mono inp lenient ms _ _ _ _ E) as Hm. rewrite E. cbn [ebind].
-    apply Hk; [exact Hm | apply Hh | apply linv_in_hdr; apply Hh].
-  - apply Gf. apply ebind_fails. now apply perr_fails.
+    apply Hk; [exact Hm | apply Hh | apply linv_in_hdr; apply Hh | apply einv_in_hdr; apply Hh].
+  - apply Gf. apply bad_ebind. now apply bad_perr.
 Qed.
 
 Lemma gg_read_data n h e fr p (k : bytes * lv -> prog B) : 0 < n -> linv' (AIn h e) fr p ->
@@ -473,16 +549,18 @@ Proof.
   intros Hn Hl Hk. rewrite exec_bind.
   destruct (read_data_spec inp lenient ms n h e fr p Hn Hl) as [(H1 & H2 & H3 & E) | (_ & Hx)].
   - rewrite E. cbn [ebind]. apply Hk. split; [exact H2 | cbn [ainv]; exact H1].
-  - apply Gf. apply ebind_fails. now apply perr_fails.
+  - apply Gf. apply bad_ebind. now apply bad_perr.
 Qed.
 
-Lemma gg_lift {A} (r : res A) (k : A -> prog B) p : rgood r ->
+Lemma gg_lift {A} (r : res A) (k : A -> prog B) p : rgood2 r ->
   (forall a, r = Ok a -> G (exec' (k a) p)) -> G (exec' (pbind (lift r) k) p).
 Proof.
-  intros Hr Hk. rewrite exec_bind, exec_lift. destruct r as [a|e|e|n|]; cbn [ebind rgood] in *; try contradiction.
+  intros Hr Hk. rewrite exec_bind, exec_lift. destruct r as [a|e|e|n|] eqn:Er; cbn [ebind].
   - now apply Hk.
-  - apply Gf. left. eexists _, _. reflexivity.
-  - apply Gf. right. eexists _, _. reflexivity.
+  - apply Gf. apply bad_perr. eexists _, _. reflexivity.
+  - apply Gf. pose proof (bad_of_rgood2 (B := B) (EIo e) p Hr) as X. apply X. discriminate.
+  - destruct Hr as [Hr _]. contradiction.
+  - destruct Hr as [Hr _]. contradiction.
 Qed.
 
 Lemma gg_has_remaining a fr p (k : bool * lv -> prog B) : linv' a fr p ->
@@ -492,61 +570,64 @@ Proof.
   intros Hl Hk. rewrite exec_bind.
   destruct (has_remaining_spec inp lenient ms a fr p Hl) as [(Hp & E) | (_ & Hx)].
   - rewrite E. cbn [ebind]. destruct (linv_settle inp a fr p Hl Hp) as (Hl' & _ & _). now apply Hk.
-  - apply Gf. apply ebind_fails. now apply perr_fails.
+  - apply Gf. apply bad_ebind. now apply bad_perr.
 Qed.
 End Gen.
 
 (* the run ended in Ok, a parse error or an I/O error *)
-Definition ended (x : res unit * N) : Prop := fails x \/ exists q, x = (Ok tt, q).
-Lemma ended_fails x : fails x -> ended x.
+Definition ended (x : res unit * N) : Prop := bad x \/ exists q, x = (Ok tt, q).
+Lemma ended_fails x : bad x -> ended x.
 Proof. now left. Qed.
 
 Theorem webp_prog_total fuel : (N.to_nat (ilen inp / 8) < fuel)%nat -> ended (exec' (webp_prog lossless allow fuel) 0).
 Proof.
   intros Hfu. unfold webp_prog. cbv zeta. change (Idle RIFF, @nil cstate) with (L (AIdle RIFF) [] 0).
   assert (Hl0 : linv' (AIdle RIFF) [] 0) by (split; [apply fits_nil | exact I]).
-  apply (gg_read_header_at ended ended_fails); [exact Hl0|]. cbn [loff npos]. intros Ho Hl1. unfold in_hdr in *.
+  apply (gg_read_header_at ended ended_fails); [exact Hl0|]. cbn [loff npos]. intros Ho Hl1 He1. unfold in_hdr in *.
   set (h := hdr_at' 0) in *. set (e := 0 + 8 + ch_len h) in *.
   apply (gg_read_data ended ended_fails); [lia | exact Hl1|]. intros Hl2. change (N.to_nat 4) with 4%nat.
   apply (gg_lift ended ended_fails).
-  { rewrite parse_webp_spec. destruct (geq _ _); exact I. }
+  { rewrite parse_webp_spec. destruct (geq _ _); [apply rgood2_ok | apply rgood2_parse]. }
   intros _ _.
-  destruct (WEBP_MAX_FILE_LEN <? ch_len h + 8); [left; left; eexists _, _; apply exec_ret|].
+  destruct (WEBP_MAX_FILE_LEN <? ch_len h + 8); [left; apply bad_ret_parse|].
   rewrite child_L. set (fr1 := [(h, e)]).
   assert (Hc : linv' (AIdle (ch_name h)) fr1 (0 + 8 + 4)).
   { split; [|exact I]. apply fits_cons. destruct Hl2 as [Hf2 Ha2]. cbn [ainv] in Ha2. cbn [snd]. split; assumption. }
-  apply (gg_read_any_header ended ended_fails); [exact Hc|]. intros o1 _ _ Hl3. unfold in_hdr in *.
+  apply (gg_read_any_header ended ended_fails); [exact Hc|]. intros o1 _ _ Hl3 He3. unfold in_hdr in *.
   apply (gg_bind ended ended_fails anyst fr1).
-  { destruct (teq _ VP8); [eapply good_weaken; [|apply g_skip_data; [exact Hl3 | discriminate]]; intros; exact I|].
-    destruct (teq _ VP8L); [eapply good_weaken; [|apply g_do_vp8l; exact Hl3]; intros; exact I|].
+  { destruct (teq _ VP8); [eapply good_weaken; [|apply g_skip_data; [exact Hl3 | exact He3 | discriminate]]; intros; exact I|].
+    destruct (teq _ VP8L); [eapply good_weaken; [|apply g_do_vp8l; [exact Hl3 | exact He3]]; intros; exact I|].
     destruct (teq _ VP8X); [|apply good_ret_parse].
     apply g_read_data; [lia | exact Hl3|]. intros Hl4. change (N.to_nat 10) with 10%nat.
     apply g_lift.
-    { rewrite parse_vp8x_spec. destruct (vp8x_cond _ _); exact I. }
-    intros x _. apply g_extended; [exact Hl4 | exact Hfu]. }
-  intros a2 p2 Hl5 _ _.
+    { rewrite parse_vp8x_spec. destruct (vp8x_cond _ _); [apply rgood2_ok | apply rgood2_parse]. }
+    intros x _. apply g_extended; [exact Hl4 | exact He3 | exact Hfu]. }
+  intros a2 p2 Hl5 He5 _ _.
   apply (gg_bind ended ended_fails isidle fr1).
-  { apply g_file_tail; [exact Hl5 | apply fuel_ok_any; exact Hfu]. }
-  intros a3 p3 [Hf3 _] _ _. unfold fr1. rewrite parent_L. apply fits_cons in Hf3. cbn [snd] in Hf3.
+  { apply g_file_tail; [exact Hl5 | exact He5 | apply fuel_ok_any; exact Hfu]. }
+  intros a3 p3 [Hf3 _] _ _ _. unfold fr1. rewrite parent_L. apply fits_cons in Hf3. cbn [snd] in Hf3.
   rewrite exec_bind, exec_lift. cbn [ebind].
   assert (Hl6 : linv' (AIn h e) [] p3) by (split; [apply fits_nil | cbn [ainv]; apply Hf3]).
   apply (gg_has_remaining ended ended_fails); [exact Hl6|]. intros _ b.
-  destruct b; [left; left; eexists _, _; apply exec_ret|].
+  destruct b; [left; apply bad_ret_parse|].
   rewrite exec_bind, exec_pos. cbn [ebind]. rewrite exec_bind, exec_len. cbn [ebind].
-  destruct (ilen inp <? _); [left; left; eexists _, _; apply exec_ret | right; eexists; apply exec_ret].
+  destruct (ilen inp <? _); [left; apply bad_ret_parse | right; eexists; apply exec_ret].
 Qed.
 End T.
 
 (* ------------------------------------------------------------------ statements on results *)
-Lemma ended_rgood (x : res unit * N) : ended x -> rgood (fst x).
-Proof. intros [[(e & q & ->) | (e & q & ->)] | (q & ->)]; exact I. Qed.
+Lemma ended_rgood noio (x : res unit * N) : ended noio x -> rgood (fst x).
+Proof.
+  intros [F | (q & ->)]; [|exact I]. unfold bad in F.
+  destruct noio; [destruct F as (e & q & ->); exact I | destruct F as [(e & q & ->) | (e & q & ->)]; exact I].
+Qed.
 
 Theorem webp_sanitize_total lossless allow lenient ms inp fuel :
   (forall w h b, rgood (lossless w h b)) -> (N.to_nat (ilen inp / 8) < fuel)%nat ->
   rgood (webp_sanitize lossless allow lenient ms inp fuel).
 Proof.
   intros Hll Hfu. unfold webp_sanitize.
-  exact (ended_rgood _ (webp_prog_total inp lenient ms lossless allow Hll fuel Hfu)).
+  exact (ended_rgood false _ (webp_prog_total inp lenient ms lossless allow Hll false ltac:(discriminate) fuel Hfu)).
 Qed.
 
 Theorem webp_sanitize_terminates lossless allow lenient ms inp fuel :
@@ -569,8 +650,28 @@ Proof.
   rewrite Hm, E in H. exact H.
 Qed.
 
+(* no I/O error on a fault-free cursor: a strict cursor never answers one that is not mapped to TruncatedChunk; a
+   seek-style cursor only when a skip target exceeds its seek bound, which cannot happen when the bound is at least
+   2^32 beyond the input (in memory: ilen < 2^63, bound 2^64-1); for ANY fuel *)
+Theorem webp_sanitize_no_io lossless allow lenient ms inp fuel :
+  (forall w h b, rgood (lossless w h b)) -> (forall w h b e, lossless w h b <> EIo e) ->
+  (lenient = true -> ilen inp + 2 ^ 32 <= ms) ->
+  forall e, webp_sanitize lossless allow lenient ms inp fuel <> EIo e.
+Proof.
+  intros Hll Hio Hms e E.
+  set (f' := (fuel + S (N.to_nat (ilen inp / 8)))%nat).
+  assert (Hne : webp_sanitize lossless allow lenient ms inp fuel <> OutOfFuel) by (rewrite E; discriminate).
+  pose proof (webp_fuel_monotone lossless allow lenient ms inp fuel f' ltac:(unfold f'; lia) Hne) as Hm.
+  pose proof (webp_prog_total inp lenient ms lossless allow Hll true (fun _ => conj Hms Hio) f' ltac:(unfold f'; lia)) as H.
+  rewrite E in Hm. unfold webp_sanitize, exec in *.
+  destruct H as [F | (q & F)].
+  - unfold bad in F. destruct F as (pe & q & F). rewrite F in Hm. discriminate Hm.
+  - rewrite F in Hm. discriminate Hm.
+Qed.
+
 Example webp_total_sat :
   let g := input_of_bytes (RIFF ++ [x0f; x00; x00; x00] ++ [x57; x45; x42; x50] ++ VP8 ++ [x02; x00; x00; x00; x01; x02]) in
   (forall (w h : N) (b : bytes), rgood (A := unit) (Ok tt)) /\ (N.to_nat (ilen g / 8) < 10)%nat
+  /\ ilen g + 2 ^ 32 <= 18446744073709551615
   /\ webp_sanitize (fun _ _ _ => Ok tt) false true 18446744073709551615 g 10 = EParse WInvalidInput.
-Proof. cbv zeta. split; [intros; exact I|]. split; [vm_compute; lia | vm_compute; reflexivity]. Qed.
+Proof. cbv zeta. split; [intros; exact I|]. split; [vm_compute; lia|]. split; [vm_compute; discriminate | vm_compute; reflexivity]. Qed.
